@@ -45,6 +45,11 @@ def check(ctx):
     ctx.attempt(_preprocess)
     ctx.attempt(_cleanup)
     ctx.attempt(_thresholds_and_tests)
+    from . import forward
+    ctx.attempt(forward.check_all, module_suffixes=('plssdesc.plss_parse', 'plssdesc.plss_preprocess'))
+    from .c14 import seed_guard            # unused-text flags handed down to the tracts survive a re-parse
+    ctx.attempt(seed_guard)
+    ctx.attempt(_pm_needs_pm)
     ctx.attempt(dispatch_exhaustive)
     ctx.attempt(common.match_record_roles)
 
@@ -332,6 +337,22 @@ def _thresholds_and_tests(ctx):
                   f"(characters of the description are lost)", key="SINK|cleanup_desc|test-act", where=common.loc(cd, node))
     if n == 0:
         ctx.undecided('SINK', 'cleanup_desc cuts the text it has just tested', 'endswith / slice pair not recognised')
+
+
+def _pm_needs_pm(ctx):
+    """pm_regex (whose match, and up to 25 characters before it, is deleted
+    after a Twp/Rge) only fires on a principal-meridian designation: ordinary
+    words that merely contain 'pr' / 'p' must not match."""
+    rv = ctx.fold.get('rgxlib.twprge', 'pm_regex')
+    L = common.lang(ctx, rv)
+    for w in ('private', 'property', 'approximately', 'April', 'improvements', 'pr', 'PR'):
+        hit = [sp for sp in L.search_spans(w) if sp[1] > sp[0]]
+        ctx.check(not hit, 'RX-LANG-NEG', f"pm_regex does not fire inside {w!r}",
+                  detail_bad=f"pm_regex matches {(w[hit[0][0]:hit[0][1]] if hit else '')!r} in {w!r}: any such word within 25 characters after a "
+                             f"Twp/Rge makes the preprocessor delete the words in between as if they were a P.M. designation",
+                  key=f"RX-LANG-NEG|pm_regex|{w}")
+    for w in ('5th P.M.', 'Principal Meridian', '6th PM', 'Prin. Mer.'):
+        ctx.shape(bool(L.search(w)), 'RX-LANG', f"pm_regex finds {w!r}")
 
 
 def _cleanup(ctx):
